@@ -105,9 +105,18 @@ class SystemProblem:
         from jinns.parameters import ParamsDict
 
         kind = self.kind
-        self.params = ParamsDict(nn_params={n: self.nets[n].nn_params() for n in self.names},
-                                 eq_params={k: jnp.asarray(v) for k, v in EQ0.items()})
+        # dictionaries are handed over in unrelated key orders (u_dict, nn_params, eq_params), and unknowns whose
+        # fields have the same structure share ONE network object (only their parameters differ) in half of the cases
+        perm = [self.names[i] for i in self.rng.permutation(len(self.names))]
+        eqk = [list(EQ0)[i] for i in self.rng.permutation(len(EQ0))]
+        self.params = ParamsDict(nn_params={n: self.nets[n].nn_params() for n in perm},
+                                 eq_params={k: jnp.asarray(EQ0[k]) for k in eqk})
         u_dict = {n: self.nets[n].pinn() for n in self.names}
+        if self.case.get("seed", 0) % 2:
+            by_nout = {}
+            for n in self.names:
+                by_nout.setdefault(self.nets[n].n_out, u_dict[n])
+                u_dict[n] = by_nout[self.nets[n].n_out]
         dyn = {e: self.specs[e].module(kind) for e in self.eqnames}
         name_of = {"dyn": "dyn_loss", "ic": "initial_condition", "boundary": "boundary_loss", "norm": "norm_loss",
                    "obs": "observations"}
